@@ -6,6 +6,7 @@ from . import bp as B
 COUNTS = {}
 PENDING = []      # violations recorded by contracts: (name, info)
 CURRENT_TEST = [None]   # set by vf/pytest_plugin.py
+SUSPENDED = [False]     # contracts off while the harness misuses the API
 
 
 def _count(name):
@@ -59,6 +60,8 @@ def install_substitute_contract():
     from pysmt.substituter import Substituter
 
     def same_type(self, formula, result):
+        if SUSPENDED[0]:
+            return True      # a deliberately ill-typed map of the harness
         _count('substitute_contract')
         try:
             t1 = B.typeof(B.describe(formula))
